@@ -7,10 +7,11 @@ META = {
     "decided": [
         "06.a stepping a term by n equals constructing the term n places later, crossing years in either direction; is_jie / is_qi = index parity (= 11.c, Kani)",
         "06.b under the alignment contract (the month's second nominal term falls inside the month, the next one after it): SolarDay::get_term_day reports the latest term whose day is on or before the date, with day index = days since that term's day, 0..16 — for every date, month length and term table (engine B, walk loop unrolled with the bound proved)",
+        "06.c the same for instants: under the alignment contract SolarTime::get_term reports the latest term whose instant is at or before the instant — for every instant, month length and term-instant table 14.6..15.8 days apart (engine B, walk loop unrolled with the bound proved)",
         "06.d without the alignment contract the same obligation has a counterexample, realised natively (known finding: the lookup never walks forward)",
     ],
     "outside": ["that consecutive term instants are 14.6-15.8 days apart and strictly increasing (assumed as the table's contract: trigonometric data)",
-                "the instant -> term mapping (SolarTime::get_term), same walk on instants", "in which years the alignment contract holds (per the property text: 1583-7275)"],
+                "in which years the alignment contract holds (per the property text: 1583-7275)"],
     "assumptions": [
         "term days are an abstract table D(k): any integers with consecutive values 14..16 apart; SolarTerm::from_index(y, i) denotes term 24y + i and next(n) moves by n (11.c)",
         "SolarDay::is_before = chronological order and subtract = day-count difference (C01 01.f)",
@@ -32,4 +33,4 @@ def engine_b(tier, seed, scr):
     eng, err = engine(scr, "06.b/B/term-day-aligned", "06.b")
     if eng is None:
         return err
-    return [terms.k_term_day(eng, True), terms.k_term_day(eng, False)]
+    return [terms.k_term_day(eng, True), terms.k_term_instant(eng), terms.k_term_day(eng, False)]
